@@ -54,15 +54,7 @@ def run(ctx, chk):
 
     ps = P.Executor(prog, eff).run("cbor_load")
     chk.floor("C05.fields", "paths of cbor_load", len(ps), 20)
-    # status switch exhaustive
-    sws = [i for i in f.all_insts() if i.op == "switch"]
-    if len(sws) != 1:
-        raise AnalysisBroken("cbor_load: expected one switch (on the decoder status), found %d" % len(sws))
-    cases = {v for v, _ in sws[0].cases}
-    missing = [k for k, v in DS.items() if v not in cases]
-    chk.ob("C05.status-exhaustive", "switch on decode_result.status", not missing, sws[0].loc(), fn=f.name,
-           detail="no arm for %s" % missing if missing else "")
-
+    statuses_seen = set()
     seen_causes = set()
     for k, pa in enumerate(ps):
         st = pa.st
@@ -93,6 +85,11 @@ def run(ctx, chk):
                 else:
                     last_status = "other"
                     cause = None
+            elif t[0] == "icmp" and t[1] == "eq" and isinstance(t[2], tuple) and t[2][0] == "ld" and t[2][2] == st_status and P.is_const(t[3]) and truth \
+                    and isinstance(t[2][1], tuple) and t[2][1][0] == "alloca":
+                v = t[3][1]
+                last_status = v
+                cause = "nedata" if v == DS["CBOR_DECODER_NEDATA"] else ("error" if v == DS["CBOR_DECODER_ERROR"] else None)
             elif t[0] == "ld" and ctx_cell is not None and t[1] == ctx_cell:
                 if t[2] == cf_off:
                     flags["cf"] = truth
@@ -102,6 +99,8 @@ def run(ctx, chk):
                     flags["se"] = truth
                     if truth:
                         cause = "syntax_error"
+        if last_status not in (None, "other"):
+            statuses_seen.add(last_status)
         if last_status == "other":
             continue  # status outside the enumeration: unreachable given C08.status; not an obligation
         is_null = pa.ret == ("c", 0)
@@ -141,6 +140,8 @@ def run(ctx, chk):
                 t, truth, _ = pa.facts[fi]
                 if t[0] == "in" and t[1][0] == "ld" and t[1][2] == st_status and len(t[2]) == 1:
                     cur_status = t[2][0]
+                elif t[0] == "icmp" and t[1] == "eq" and isinstance(t[2], tuple) and t[2][0] == "ld" and t[2][2] == st_status and P.is_const(t[3]) and truth:
+                    cur_status = t[3][1]
                 fi += 1
             if e.kind == "store" and P.ptr_key(e.args[0]) == (RES, read_off):
                 v = e.args[1]
@@ -155,6 +156,9 @@ def run(ctx, chk):
                     ok = cur_status == DS["CBOR_DECODER_FINISHED"]   # 0 + read folded
                 chk.ob("C05.position", "path %d: read advanced by a FINISHED result only" % k, ok, e.ins.loc(), fn=f.name,
                        key="readadv:%d:%d" % (k, e.ins.line), detail="" if ok else "read := %s under status %s" % (DR.fmt_term(v), cur_status))
+    missing = [k_ for k_, v_ in DS.items() if v_ not in statuses_seen]
+    chk.ob("C05.status-exhaustive", "every enumerator of cbor_decoder_status is distinguished on some path of cbor_load", not missing, where,
+           fn=f.name, detail="no path handles %s" % missing if missing else "")
     for c in want:
         if c == "exhausted":
             continue   # the explicit remainder test is optional: an empty remainder yields NEDATA from the decoder itself
